@@ -368,7 +368,10 @@ def run(chk):
                             d0, d1 = ir.bvextract(dig, 0, 0), ir.bvextract(dig, 1, 1)
                             sem.append(ir.band(ir.bvcmp('eq', x, ir.bvbin('bvxor', d0, d1)), ir.bvcmp('eq', z, d1)))
                     chk.add(f'index->F2->index round trip, digits <-> (x,z) [n={n},{bshape},sign={with_sign}] path {pi}', inrange + path.pc,
-                            ir.band(ir.band(rt, binary), ir.band_all(sem)), key='pauli_index_to_F2 / pauli_F2_to_index', replay=rp)
+                            ir.band(ir.band(rt, binary), ir.band_all(sem)), key='pauli_index_to_F2 / pauli_F2_to_index', replay=rp,
+                            fallback_payloads=[{'what': 'index', 'n': n, 'with_sign': with_sign, 'index': np.array(v, dtype=np.uint64).reshape(bshape).tolist()}
+                                               for v in ([[(1 << (2 * n)) - 1 - j] * int(np.prod(bshape)) for j in range(4)] +
+                                                         [[((1 << (2 * n - 1)) | (0x5 * j + 1)) % (1 << (2 * n))] * int(np.prod(bshape)) for j in range(1, 5)])])
                     chk.add(f'reach index [n={n},{bshape},{with_sign}] path {pi}', inrange + path.pc, ir.TRUE, kind='reach')
         # F2 -> index -> F2 (symbolic bits)
         if n <= 3:
